@@ -606,6 +606,83 @@ def run_schema_directives(ctx):
                 ctx.fail("schema-directives:%s" % out[1], "schema directive arguments: %s instead of a schema/SDL error" % out[1], detail)
 
 
+def run_schema_directives_once(ctx):
+    """`schema_directives=[…]`: every application of a schema directive written in the SDL is applied EXACTLY ONCE — by
+    build_schema, and by the two-phase build the code describes (build_schema(doc, ignore_extensions=True) then
+    extend_schema(base, doc, strict=False) with the SAME parsed Document; Lean: two_phase_directives_once). The directive
+    appends '!' to the description of the element it is written on, so the number of applications is part of the dumped
+    content (descriptions are content of C11). Deterministic, no ctx.rng."""
+    from py_gql import build_schema
+    from py_gql.lang import parse
+    from py_gql.sdl import SchemaDirective, extend_schema
+
+    class Mark(SchemaDirective):
+        definition = "mark"
+
+        def _m(self, x):
+            x.description = (x.description or "") + "!"
+            return x
+        on_object = on_field = on_argument = on_interface = on_union = on_enum = on_enum_value = on_input_object = on_input_field = on_scalar = _m
+
+    head = ("directive @mark on OBJECT | FIELD_DEFINITION | ARGUMENT_DEFINITION | INTERFACE | UNION | ENUM | ENUM_VALUE | INPUT_OBJECT | "
+            "INPUT_FIELD_DEFINITION | SCALAR\n")
+    docs = {
+        "object": 'type Query @mark { q: Int }\nextend type Query { x: Int }',
+        "field": 'type Query { "d" q: Int @mark }\nextend type Query { x: Int }',
+        "argument": 'type Query { q("d" a: Int @mark): Int }\nextend type Query { x: Int }',
+        "enum-value": 'type Query { q: E }\nenum E { "d" A @mark B }\nextend enum E { C }',
+        "input-field": 'type Query { q(i: I): Int }\ninput I { "d" a: Int @mark }\nextend input I { b: Int }',
+        "interface-union-scalar": 'type Query implements N { q: U s: S }\ninterface N @mark { q: U }\nunion U @mark = Query\nscalar S @mark\nextend type Query { x: Int }',
+        "extension-block": 'type Query { q: Int }\nextend type Query @mark { "d" x: Int @mark }',
+        "extension-and-definition": '"t" type Query @mark { q: Int @mark }\nextend type Query { x(a: Int @mark): Int @mark }\nenum E { A @mark }\nextend enum E @mark { B @mark }',
+        "untargeted-type-kept": 'type Query { q: T }\n"t" type T @mark { "d" a: Int @mark }\nextend type Query { x: Int }',
+    }
+
+    def marks(dump):
+        out = {}
+
+        def put(path, d):
+            if d and d.endswith("!"):
+                out[path] = len(d) - len(d.rstrip("!"))
+        for t in dump["types"]:
+            put(t["name"], t.get("desc"))
+            for f in t.get("fields", []):
+                put("%s.%s" % (t["name"], f["name"]), f.get("desc"))
+                for a in f.get("args", []):
+                    put("%s.%s.%s" % (t["name"], f["name"], a["name"]), a.get("desc"))
+            for f in t.get("input_fields", []):
+                put("%s.%s" % (t["name"], f["name"]), f.get("desc"))
+            for v in t.get("values", []):
+                put("%s.%s" % (t["name"], v["name"]), v.get("desc"))
+        return out
+    for site, body in docs.items():
+        text = head + body
+        expected_marks = text.count("@mark") - 1        # every application written (the definition line has one `@mark`)
+        for mode in ("build_schema", "two-phase"):
+            ctx.count()
+            ctx.nontrivial("schema-directives-once:%s:%s" % (site, mode))
+            detail = {"sdl": text, "schema_directives": "mark", "mode": mode, "label": "schema-directives-once"}
+            try:
+                if mode == "build_schema":
+                    s = build_schema(text, schema_directives=[Mark])
+                else:
+                    doc = parse(text, allow_type_system=True)
+                    base = build_schema(doc, ignore_extensions=True, schema_directives=[Mark])
+                    s = extend_schema(base, doc, strict=False, schema_directives=[Mark])
+                got = marks(dump_schema(s, sort=True))
+            except Exception as e:  # noqa
+                ctx.fail("schema-directives-once:%s:%s:%s" % (site, mode, type(e).__name__), "schema directive build raises", detail)
+                continue
+            ctx.stat("schema-directives-once:%s" % mode)
+            twice = sorted(k for k, n in got.items() if n > 1)
+            if twice:
+                ctx.fail("schema-directives:applied-twice:%s:%s" % (site, mode),
+                         "a schema directive written once in the SDL is applied more than once: " + ", ".join(twice), dict(detail, marks=got))
+            elif sum(got.values()) != expected_marks:
+                ctx.fail("schema-directives:not-applied:%s:%s" % (site, mode),
+                         "%d applications written, %d applied" % (expected_marks, sum(got.values())), dict(detail, marks=got))
+
+
 def run_source_forms(ctx):
     """hunt3 C11/2: `bytes` is a source form of the library (`parse`, `graphql`, `validate` take it): build_schema and
     extend_schema must build the same schema from the encoded text (the `raise` of `_document_ast` was missing)."""
@@ -950,6 +1027,7 @@ def run(ctx):
     run_invalid(ctx, batch)
     run_validation_rules(ctx, batch)
     run_schema_directives(ctx)
+    run_schema_directives_once(ctx)
     run_special(ctx)
     run_hand_built(ctx)
     run_source_forms(ctx)
@@ -970,7 +1048,7 @@ def replay(ctx, data):
                        and f["detail"].get("case") == inp.get("case") for f in c2.found)
     if inp.get("special") or inp.get("schema_directives"):
         c2 = type(ctx)(ctx.prop, ctx.tier, ctx.seed)
-        (run_special if inp.get("special") else run_schema_directives)(c2)
+        (run_special if inp.get("special") else (run_schema_directives_once if inp.get("label") == "schema-directives-once" else run_schema_directives))(c2)
         return not any(f["kind"] == "property" and f["detail"].get("sdl") == inp.get("sdl") for f in c2.found)
     if "additional_probe" in inp:
         return C11_additional.replay(real_build, _live_additional, canon, inp)
